@@ -120,6 +120,10 @@ pub enum Ev {
     /// (transmit() returns None); the device accepts again afterwards and nothing is polled
     /// until the next event - whatever could not be sent is still pending then
     BlockedTick { side: usize },
+    /// the head frame travelling towards `to` is delivered while `to`'s device refuses every
+    /// frame (whatever the arrival makes the stack want to send cannot leave in that poll); the
+    /// device accepts again afterwards and nothing is polled until the next event
+    BlockedDeliver { to: usize },
 }
 
 pub struct Frame {
@@ -716,6 +720,13 @@ impl Harness for Tcp2 {
                 v.push((Ev::BlockedTick { side }, 1));
             }
         }
+        if self.cfg.allow_blocked_tick {
+            for to in 0..2 {
+                if !self.net[to].is_empty() {
+                    v.push((Ev::BlockedDeliver { to }, 1));
+                }
+            }
+        }
         if self.cfg.allow_stall {
             for side in 0..2 {
                 let e = &self.ends[side];
@@ -786,6 +797,30 @@ impl Harness for Tcp2 {
                 if let Some(d) = self.cached_deadline {
                     self.now = d;
                 }
+            }
+            Ev::BlockedDeliver { to } => {
+                let fr = self.net[to].remove(0);
+                self.ends[to].dev.tx_budget = Some(0);
+                self.deliver(to, &fr);
+                for s2 in 0..2 {
+                    self.app_step(s2);
+                }
+                let n = self.poll_side(to);
+                if n > 0 {
+                    self.pending.push(Viol::new("MACHINERY/blocked-device-transmitted", format!("{} frames", n)));
+                }
+                self.ends[to].dev.tx_budget = None;
+                let mut d = self.earliest_deadline();
+                for s2 in 0..2 {
+                    if let Some(t) = self.poll_at(s2) {
+                        if t <= self.now {
+                            d = Some(self.now);
+                        }
+                    }
+                }
+                self.cached_deadline = d;
+                out.append(&mut self.pending);
+                return;
             }
             Ev::BlockedTick { side } => {
                 // same rule as for Tick: an application that has been told nothing more can
@@ -971,6 +1006,7 @@ pub fn configs(tier: Tier) -> Vec<(Tcp2Cfg, u32)> {
     // keep-alive probes (one garbage octet at SND.NXT-1) interleaved with loss, zero windows, FINs
     let ka = Tcp2Cfg { keep_alive_ms: Some(300), rx: [64, 16], len: [60, 20], ..b("keepalive-300ms-rx16") };
     let ka2 = Tcp2Cfg { keep_alive_ms: Some(300), len: [60, 0], chunk: 25, ..b("keepalive-300ms-chunk25") };
+    let blocked_fr = Tcp2Cfg { allow_blocked_tick: true, allow_stall: false, rx: [64, 512], tx: [512, 64], len: [240, 0], ..b("blocked-fast-retransmit") };
     let reuse2 = Tcp2Cfg { prefix: 2, len: [60, 20], ..b("reuse-after-close") };
     // sweep of stream lengths against a 24-byte transmit ring and a 10-byte peer window: for
     // some lengths the final unsent chunk straddles the end of the ring storage at close()
@@ -994,6 +1030,7 @@ pub fn configs(tier: Tier) -> Vec<(Tcp2Cfg, u32)> {
             v.push((burst, 2));
             v.push((blocked, 2));
             v.push((blocked_eth, 2));
+            v.push((blocked_fr, 2));
             v.push((ka, 3));
             v.push((ka2, 3));
             v.push((eth4, 2));
@@ -1023,6 +1060,7 @@ pub fn configs(tier: Tier) -> Vec<(Tcp2Cfg, u32)> {
             v.push((burst, 3));
             v.push((blocked, 3));
             v.push((blocked_eth, 3));
+            v.push((blocked_fr, 3));
             v.push((ka, 4));
             v.push((ka2, 4));
             v.push((eth4, 3));
